@@ -267,6 +267,18 @@ class InterpCore:
                     and elt.args[0].origin and elt.args[0].origin[0] in ("elem", "key") and isinstance(elt.args[1], str):
                 src = elt.args[0].origin[1]
                 self.elem_notkinds.setdefault(src.key(), []).extend(elt.args[1].split("|"))
+        # `type(x) is K` / `x.__class__ is K`  =>  x is exactly a K
+        if isinstance(v, Term) and v.op == "is" and val and len(v.args) == 2:
+            for tx, kx in ((v.args[0], v.args[1]), (v.args[1], v.args[0])):
+                if isinstance(kx, Ext) and kx.name.startswith("builtins."):
+                    x0 = None
+                    if isinstance(tx, Term) and tx.op == "attr" and len(tx.args) == 2 and tx.args[1] == "__class__":
+                        x0 = tx.args[0]
+                    elif isinstance(tx, Term) and tx.op == "call" and len(tx.args) == 2 and tx.args[0] == "builtins.type":
+                        x0 = tx.args[1]
+                    uid0 = getattr(x0, "uid", None)
+                    if uid0 is not None:
+                        self.kinds[uid0] = kx.name.split(".", 1)[1]
         if isinstance(v, Term) and v.op == "isinstance":
             x, k = v.args
             uid = getattr(x, "uid", None)
@@ -322,7 +334,41 @@ class InterpCore:
         for i, st in enumerate(stmts):
             if isinstance(st, ast.For) and i + 1 < len(stmts) and self._search_loop(st, stmts[i + 1], fr):
                 continue            # the loop was executed there (or summarised: then _Return was raised)
+            if isinstance(st, ast.For) and self._guard_loop(st, fr):
+                continue
             self.exec_stmt(st, fr)
+
+    def _guard_loop(self, st: ast.For, fr: Frame) -> bool:
+        """Loop summary of the guard idiom over a source that cannot be enumerated:
+            for t in S:
+                if c: raise E        ==>    if any(c for t in S): raise E
+        so that falling out of the loop carries the universal fact (no member of S satisfies c)."""
+        if st.orelse or len(st.body) != 1:
+            return False
+        b = st.body[0]
+        if not (isinstance(b, ast.If) and not b.orelse and len(b.body) == 1 and isinstance(b.body[0], ast.Raise)):
+            return False
+        if any(isinstance(x, (ast.NamedExpr, ast.Yield, ast.YieldFrom, ast.Await)) for x in ast.walk(b.test)):
+            return False
+        it = self.eval(st.iter, fr)
+        self.steps += 1
+        if self._enumerable(it):                                # type: ignore[attr-defined]
+            self.s_For(st, fr, it)
+            return True
+        tmp = f"$it{getattr(st, 'lineno', 0)}"
+        fr.locals[tmp] = it
+        gen = ast.GeneratorExp(elt=b.test, generators=[ast.comprehension(
+            target=st.target, iter=ast.copy_location(ast.Name(id=tmp, ctx=ast.Load()), st.iter), ifs=[], is_async=0)])
+        ast.copy_location(gen, st)
+        try:
+            comp = self._comp(gen, fr, "gen")                   # type: ignore[attr-defined]
+        finally:
+            fr.locals.pop(tmp, None)
+        v = self._allany("any", [comp], st)                     # type: ignore[attr-defined]
+        if self.decide(v, b.test):
+            self.assign(st.target, self.generic_element(it, st), fr, st)     # type: ignore[attr-defined]
+            self.exec_stmt(b.body[0], fr)
+        return True
 
     def _search_loop(self, st: ast.For, nxt: ast.stmt, fr: Frame) -> bool:
         """Loop summary of the search idiom over a source that cannot be enumerated:
